@@ -130,7 +130,7 @@ fn opt_eq(v: Option<Cost>, o: Option<Cost>) -> Cond {
     }
 }
 
-fn obs(tag: &str, o: &Outcome) {
+pub fn obs(tag: &str, o: &Outcome) {
     observe(&format!("{}-exact", tag), o.exact as i64);
     observe(&format!("{}-value", tag), o.value.map(|v| v.conc()).unwrap_or(i64::MIN));
     observe(&format!("{}-lb", tag), o.lb.conc());
@@ -143,7 +143,7 @@ fn obs(tag: &str, o: &Outcome) {
 }
 
 /// C02 clauses for an outcome; `own` = the solver found the solution itself
-fn c02(t: &Table, o: &Outcome, interrupted: bool, exempt: Option<&Solution>) {
+pub fn c02(t: &Table, o: &Outcome, interrupted: bool, exempt: Option<&Solution>) {
     if o.value.is_some() != o.sol.is_some() {
         panic!("SYMX-LABEL[C02:presence] a solution is present iff a value is present: violated");
     }
